@@ -28,16 +28,35 @@ def _bucket_of(pv, e):
     out = set()
     for call in pv.origin_calls(e, through_calls=True):
         if call_name(call) == "_parse_vlancfg_actions" and call.args:
-            a = call.args[0]
-            if isinstance(a, ast.Subscript) and op_const(a.slice):
-                out.add(op_const(a.slice))
+            for a in ast.walk(call.args[0]):
+                if isinstance(a, ast.Subscript) and op_const(a.slice):
+                    out.add(op_const(a.slice))
     return out
+
+
+def _diff_chain(pv, e, depth=0):
+    """A.difference(B) - C  ->  (A, [B, C]); names are followed through their single definitions"""
+    v = pv.resolve_alias(e) if depth < 6 else e
+    if isinstance(v, ast.Call) and isinstance(v.func, ast.Attribute) and v.func.attr == "difference" and v.args:
+        base, subs = _diff_chain(pv, v.func.value, depth + 1)
+        return base, subs + list(v.args)
+    if isinstance(v, ast.BinOp) and isinstance(v.op, ast.Sub):
+        base, subs = _diff_chain(pv, v.left, depth + 1)
+        return base, subs + [v.right]
+    return e, []
 
 
 def r1(c):
     repo = c.repo
     c.rule("C11.R1", "in huawei.vlandb._process_vlandb and cisco.vlandb._process_vlandb the set handed to collapse_vlandb for a removal command is old.difference(new) "
-                     "(old parsed from the REMOVED rows, new from the ADDED rows) and for an addition command new.difference(old); no removal command is built from old alone")
+                     "(old parsed from the REMOVED rows, new from the ADDED rows) and for an addition command new.difference(old); no removal command is built from old alone; further "
+                     "subtrahends are only ids of rows that stay (UNCHANGED/AFFECTED), and where one id can be written by two rows of a key (cisco vlan blocks restate the ids of "
+                     "the range line) the removal set must subtract the ids of the UNCHANGED rows")
+    restating = {}
+    for vendor, modname in MODS.items():
+        pa = repo.module(modname).defs.get("_parse_vlancfg_actions")
+        if isinstance(pa, ast.FunctionDef) and any(isinstance(x, ast.Subscript) and isinstance(x.slice, ast.Constant) and x.slice.value == "children" for x in ast.walk(pa)):
+            restating[vendor] = "_parse_vlancfg_actions tells block rows `vlan N` + children from list rows; NX-OS prints N in both"
     for vendor, modname in MODS.items():
         m = repo.module(modname)
         fn = repo.func(modname, "_process_vlandb")
@@ -139,11 +158,22 @@ def r1(c):
                 c.violated("C11.R1", repo.loc(m, d.stmt or col), f"{vendor}._process_vlandb/{arm}", f"`{altered[0].id}` is altered (`{norm(d.stmt)[:50] if d.stmt is not None else ''}`) before the "
                            f"set difference is taken: ids dropped from it count as {'removed' if arm == 'removal' else 'added'} although they are in both sets", key_text=f"{arm}-operand-altered")
                 continue
-            left, right = _bucket_of(pv, shape[0]), _bucket_of(pv, shape[1])
+            base0, subs0 = _diff_chain(pv, shape[0])
+            base, subs = base0, subs0 + [shape[1]]
+            left = _bucket_of(pv, base)
+            rights = [_bucket_of(pv, x) for x in subs]
             want = ({"REMOVED"}, {"ADDED"}) if arm == "removal" else ({"ADDED"}, {"REMOVED"})
-            c.check("C11.R1", (left, right) == want, repo.loc(m, col), f"{vendor}._process_vlandb/{arm}",
-                    f"the {arm} command lists (rows of {sorted(left)}) − (rows of {sorted(right)}); expected {sorted(want[0])} − {sorted(want[1])}: VLANs present in both sets would be "
-                    f"{'removed' if arm == 'removal' else 're-added'}", key_text=f"{arm}-difference")
+            STAY = {"UNCHANGED", "AFFECTED"}
+            # the other side is subtracted; further subtrahends may only be ids of rows that stay (they are in both sets by definition)
+            ok = left == want[0] and any(r == want[1] for r in rights) and all(r == want[1] or (r and r <= STAY) for r in rights)
+            c.check("C11.R1", ok, repo.loc(m, col), f"{vendor}._process_vlandb/{arm}",
+                    f"the {arm} command lists (rows of {sorted(left)}) − " + " − ".join(f"(rows of {sorted(r)})" for r in rights) + f"; expected {sorted(want[0])} − {sorted(want[1])} "
+                    f"[− rows that stay]: VLANs present in both sets would be {'removed' if arm == 'removal' else 're-added'}", key_text=f"{arm}-difference")
+            if arm == "removal" and restating.get(vendor):
+                c.check("C11.R1", any(r and r <= STAY and "UNCHANGED" in r for r in rights), repo.loc(m, col), f"{vendor}._process_vlandb/removal-keeps-staying-rows",
+                        f"in this module one VLAN id can be written by two rows of the same key ({restating[vendor]}), yet the removal set is built from the REMOVED rows without "
+                        "subtracting the ids of the rows that stay (UNCHANGED): when only one of the two rows goes away (`vlan 10 / name x` dropped while `vlan 1,10,20` stays) the "
+                        "VLAN is deleted although it is in both sets", key_text="removal-ignores-unchanged")
 
 
 RESET_WORDS = ("all", "none")
@@ -168,8 +198,9 @@ def _is_whole_key_reset(text_e, rule_name="rule"):
 def r2(c):
     repo = c.repo
     c.rule("C11.R2", "contradiction rule: a vlan logic whose key may hold several rows and that emits a command resetting the entire key (the bare reverse, `... all`, `... none`) "
-                     "must do so only on paths whose condition consults the UNCHANGED bucket — rows that stay would be wiped. Exempt: the single-row arm (`not multi`, at most "
-                     "one row per key) and the arm where the reset word is the new row itself (one ADDED row with an empty set)")
+                     "must do so only on paths whose condition consults the UNCHANGED bucket — rows that stay would be wiped. That holds for the `not multi` arm as well: the "
+                     "assertion there bounds the ADDED and REMOVED rows of a key, not the rows that stay (`instance 1 vlan 10 to 20` / `instance 1 vlan 30`). Exempt: the arm "
+                     "where the reset word is the new row itself (one ADDED row with an empty set)")
     n = 0
     for vendor, modname in MODS.items():
         m = repo.module(modname)
@@ -184,14 +215,21 @@ def r2(c):
             n += 1
             f = gm.formula(y, G.GuardEnv(rename=lambda s: s.replace('"', "'")))
             atoms = G.atoms(f)
-            consults = any("UNCHANGED" in a for a in atoms)
-            single = G.implies(f, G.Not(G.Atom("multi"))) if "multi" in atoms else False
+            # the reset happens only where nothing of the key stays: the path condition implies that the UNCHANGED bucket is empty (merely mentioning it — e.g. in the
+            # negation of an earlier arm — is not enough)
+            consults = False
+            for a in atoms:
+                if "UNCHANGED" not in a:
+                    continue
+                empty_cmp = a.replace(" ", "").endswith("==0") or a.replace(" ", "").startswith("0==")
+                if G.implies(f, G.Atom(a) if empty_cmp else G.Not(G.Atom(a))):
+                    consults = True
             one_added = [G.Atom(a) for a in atoms if a.replace(" ", "") in ("1==len(diff[Op.ADDED])", "len(diff[Op.ADDED])==1")]
             # emptiness of the parsed new set: `len(new) == 0` or `not new`
             empty_new = [G.Atom(a) for a in atoms if a.replace(" ", "") in ("0==len(new)", "len(new)==0")] + ([G.Not(G.Atom("new"))] if "new" in atoms else [])
             is_new_row = any(G.implies(f, a) for a in one_added) and any(G.implies(f, e) for e in empty_new)
-            ok = consults or single or is_new_row
-            why = "consults UNCHANGED" if consults else "single-row key" if single else "the reset word is the new row itself" if is_new_row else ""
+            ok = consults or is_new_row
+            why = "consults UNCHANGED" if consults else "the reset word is the new row itself" if is_new_row else ""
             if ok:
                 c.holds("C11.R2", repo.loc(m, y), f"{vendor}._process_vlandb/reset:{kind}", why)
             else:
